@@ -12,7 +12,7 @@ RULE = ("records = real calls on dask-backed data: diff/interp/min/max/cumsum (1
         "chunked over face and extra dims (scalar and vector); every composition of the operated dimension's length into "
         "chunks (others sampled), synchronous and threaded schedulers; a dask callback counts graph executions while "
         "the result is built; non-trivial = distinct (kind, op, shift, chunk composition) classes"
-        ' Also: user functions over two core dimensions (widths keyed in either order or for one axis), of two inputs (same rank or a profile against a field), lazy vector components on plain grids, a second lazy result of another rule computed in the same dask computation, names compared with the in-memory result.')
+        ' Also: user functions over two core dimensions (widths keyed in either order or for one axis), of two inputs (same rank or a profile against a field), lazy vector components on plain grids, a second lazy result of another rule computed in the same dask computation, names compared with the in-memory result, inputs carrying a dask-backed non-index coordinate split differently from the data.')
 
 
 def compositions(n):
@@ -84,6 +84,16 @@ def call(case, grid, ds, nm, lazy):
     chunks = {nm(d): tuple(c) for d, c in case["chunks"]}
     if lazy:
         da = da.chunk({d: chunks[d] for d in da.dims})
+    if case.get("lazy_coord") and da.ndim:
+        # a non-index coordinate on all of the data's dimensions, itself dask-backed and split differently from the data
+        # (coordinates are not what is computed on: their chunking is nobody's business)
+        import numpy as np
+
+        aux = xr.DataArray(np.arange(da.size, dtype=float).reshape(da.shape) + 1000, dims=da.dims)
+        if lazy:
+            aux = aux.chunk({d: (da.sizes[d],) if len(chunks[d]) > 1 else ((1, da.sizes[d] - 1) if da.sizes[d] >= 2 else (1,))
+                             for d in da.dims})
+        da = da.assign_coords(aux_=aux)
     kw = model.call_kwargs(a, nm)
     axis = [nm(x) for x in a["axis"]]
     kind = case["kind"]
@@ -224,6 +234,7 @@ def with_chunks(rng, base, kind, specs, **more):
         c.update(more)
         c["ev"], c["kind"], c["chunks"] = "Dask", kind, spec
         c["sched"] = rng.choice(["sync", "threads"])
+        c["lazy_coord"] = rng.random() < 0.15
         out.append(c)
     return out
 
